@@ -22,6 +22,7 @@ PROP_ORACLES = {
     'C12': ['paths', 'tree.memory', 'tree.altroot'],
     'C13': ['paths', 'reader', 'writer', 'tree.memory', 'tree.altroot', 'tree.overlay', 'tree.physical', 'union.overlay', 'overlay', 'transfer', 'handles', 'hostile.physical', 'times'],
     'C14': ['reader', 'writer'],
+    'C15': ['adiff:steps.memory', 'adiff:steps.altroot', 'adiff:steps.overlay', 'adiff:steps.physical', 'adiff:reader', 'adiff:schedule', 'adiff:hostile'],
     'C18': [],
     'C19': ['times'],
     'C20': ['faults', 'composite.memory', 'transfer', 'copydir'],
@@ -44,6 +45,13 @@ BOUNDS = {
     'times': 'set_creation/modification/access_time: 3 fields x 3 fields (ordered pairs) x 7 instants (epoch, sub-second, before the epoch, far future) on a file, a directory and the root, on memory, altroot, overlay (upper-layer entries), physical and altroot over physical; plus append sessions (creation time kept, also when set while the handle is open)',
     'handles': '6 scenarios of read / write handles that outlive their file (removed, ancestor removed, re-created) on memory, altroot, overlay: no panic, filesystem usable afterwards',
     'hostile.physical': '14 operations on every entry of a directory holding a dangling symlink, symlinks to a directory and to a file and a non-UTF-8 name: no panic; metadata type agrees with listability',
+    'adiff:steps.memory': 'differential, sync MemoryFS vs AsyncMemoryFS: all sequences of 1 (deep: 2) operations (11 kinds incl. move/copy file, copy/move dir x 8 paths) from the empty and from a populated tree; after every step the result class and every observation (exists, metadata type/len, is_file/is_dir, listing, bytes, text, walk) of every path must agree',
+    'adiff:steps.altroot': 'same, AltrootFS vs AsyncAltrootFS over in-memory filesystems',
+    'adiff:steps.overlay': 'same, OverlayFS vs AsyncOverlayFS over two in-memory layers with a pre-populated lower layer',
+    'adiff:steps.physical': 'same (length 1), PhysicalFS vs AsyncPhysicalFS on two fresh temporary directories',
+    'adiff:reader': 'sync vs async read handle over the same bytes (lengths 0,1,3): all scripts of 2 (deep: 3) read/seek calls from 15 operations',
+    'adiff:schedule': 'walk_dir / read_dir of the async path type over a filesystem whose every call and every stream item is Pending k times first, k = 0..3, on 4 trees: the yielded sequence is independent of k, equals the sync traversal as a set, directories before their contents',
+    'adiff:hostile': 'AsyncPhysicalFS on a directory holding a dangling symlink and a non-UTF-8 name: no panic, listing equals the sync one',
     'transfer': 'copy_file / move_file over 4 contents (empty, 1 byte, non-UTF-8, 9000 bytes) x same/other filesystem x altroot source x existing destination',
 }
 
@@ -66,7 +74,7 @@ def build():
     env = dict(os.environ)
     env['CARGO_NET_OFFLINE'] = 'true'
     t0 = time.time()
-    p = subprocess.run(['cargo', 'build', '--offline', '--release', '--bin', 'oracle'], cwd=crate_dir(), env=env, stdout=subprocess.PIPE, stderr=subprocess.STDOUT, timeout=1200)
+    p = subprocess.run(['cargo', 'build', '--offline', '--release', '--bin', 'oracle', '--bin', 'adiff'], cwd=crate_dir(), env=env, stdout=subprocess.PIPE, stderr=subprocess.STDOUT, timeout=1200)
     return p.returncode == 0, p.stdout.decode('utf-8', 'replace')[-3000:], time.time() - t0
 
 
@@ -77,7 +85,8 @@ def run(names, deep=False, timeout=600):
         return False, [{'check': n, 'status': 'ERROR', 'detail': 'replay crate does not build against the current /repo: ' + log[-600:]} for n in names]
     out = []
     for n in names:
-        cmd = [os.path.join(crate_dir(), 'target', 'release', 'oracle')] + (['--deep'] if deep else []) + [n]
+        binary, arg = ('adiff', n[6:]) if n.startswith('adiff:') else ('oracle', n)
+        cmd = [os.path.join(crate_dir(), 'target', 'release', binary)] + (['--deep'] if deep else []) + [arg]
         try:
             p = subprocess.run(cmd, stdout=subprocess.PIPE, stderr=subprocess.DEVNULL, timeout=timeout)
             lines = [l for l in p.stdout.decode('utf-8', 'replace').split('\n') if l.startswith(('PASS', 'FAIL'))]
